@@ -2,6 +2,8 @@ import VM.Driver.Result
 import VM.Driver.SchemaFam
 import VM.Driver.HistoryFam
 import VM.Driver.ValuesFam
+import VM.Driver.HelpersFam
+import VM.Driver.SimpleFam
 open Lean VM.Driver
 
 def dispatch (j : Json) : Json :=
@@ -10,6 +12,8 @@ def dispatch (j : Json) : Json :=
   | "schema" | "schemamal" => runSchemaCase j
   | "history" | "historypanic" => runHistoryCase j
   | "values" => runValuesCase j
+  | "helpers" => runHelpersCase j
+  | "simple" => runSimpleCase j
   | "conc" | "rexp" => Json.mkObj [("model", Json.str "theorems only: outcomes are compared with solo runs / Go regexp by the harness")]
   | f => Json.mkObj [("bad", Json.str s!"unknown family {f}")]
 
